@@ -21,8 +21,9 @@ package gen
 //     cannot get devices on their nodes are left without claims. Pending workloads ask for more devices than exist,
 //     so reclaim / preempt / consolidation must evict DRA pods to place them.
 //
-// Neither the driver nor the class name contains "gpu": the scheduler treats such devices as GPUs (node GPU
-// capacity, queue GPU quota, queue label on shared claims); that coupling is not exercised here.
+// Neither the driver nor the class name of THIS file contains "gpu": the scheduler treats such devices as GPUs (node
+// GPU capacity, queue GPU quota, queue label on shared claims). GPU-class claims are added by dra_gpu.go (knob
+// PDRAGpu, accounting profile only).
 
 import (
 	"fmt"
@@ -249,6 +250,11 @@ func (g *G) genDRA() {
 		o.ResourceClaims = append(o.ResourceClaims, mkClaim("claim-unused", 1, nil))
 		nClaims++
 	}
+	meta := map[string]int{"slices": len(o.ResourceSlices), "claims": nClaims, "claimsAllocated": nAllocated, "bindRequestsWithClaims": nInBR}
+	// GPU-class claims (dra_gpu.go): drawn after everything else, nothing is drawn when PDRAGpu == 0
+	if g.k.PDRAGpu > 0 && g.p(g.k.PDRAGpu) {
+		g.genDRAGpu(podsOf, brOf, meta)
+	}
 	sort.Slice(o.ResourceClaims, func(i, j int) bool { return o.ResourceClaims[i].Name < o.ResourceClaims[j].Name })
-	g.c.Meta["dra"] = map[string]int{"slices": len(o.ResourceSlices), "claims": nClaims, "claimsAllocated": nAllocated, "bindRequestsWithClaims": nInBR}
+	g.c.Meta["dra"] = meta
 }
